@@ -38,6 +38,9 @@ def templates(n, m='m2'):
     out.append(('lambda-parameter', doc(P('0'), {'tag': 'x', 'define': [['local', 'fn', py('lambda %s: 1' % n)]],
                                                  'children': [{'interp': py('fn(0)')}, P('1')]}, P('2')),
                 [[n, 'maybe3', 0]]))
+    # ... and so is the parameter of a function defined in a code block
+    out.append(('code-block-parameter', doc(P('0'), {'code': 'def fn_(%s, k=2): return k + 1' % n, 'defines': ['fn_']},
+                                            {'interp': py('fn_(0)')}, P('1')), [[n, 'maybe3', 0]]))
     out.append(('repeat', doc(P('0'), {'tag': 'x', 'indent': 2, 'repeat': [n, py('seq')], 'children': [P('1')]},
                               P('2')),
                 [[n, 'maybe3', 0], ['seq', 'lenN', 1]]))
@@ -147,7 +150,7 @@ def plan(tier, seed):
     names = POOL if not quick else POOL[:6]
     for n in names:
         for label, prog, vars_ in templates(n):
-            if quick and n not in ('a', 'len') and label not in ('nested-local', 'repeat', 'global', 'nested-identical-define', 'nested-identical-tuple-repeat', 'lambda-parameter', 'guarded-define'):
+            if quick and n not in ('a', 'len') and label not in ('nested-local', 'repeat', 'global', 'nested-identical-define', 'nested-identical-tuple-repeat', 'lambda-parameter', 'guarded-define', 'code-block-parameter'):
                 continue
             jobs.append({'prog': prog, 'vars': vars_, 'label': '%s:%s' % (n, label)})
     for label, prog, vars_ in templates('error'):
